@@ -4,7 +4,7 @@ import json
 
 from .base import Monitor, unrank_sequence, sequence_space
 from .motion import mk
-from ..harness import Plugin, DEFAULT_EXT, DEFAULT_AT, region_payload, digest
+from ..harness import Plugin, DEFAULT_EXT, DEFAULT_AT, region_payload, digest, setting_bool, RAW_BOOLS
 from ..gen import gen_program, gen_regions
 
 EV_START = "PrintStarted"
@@ -50,7 +50,7 @@ def program(rnd, regs, settings, n=None, feats=None):
 
 
 def rand_settings(rnd):
-    return dict(clear=rnd.random() < 0.4, shrink=rnd.random() < 0.3, g90e=rnd.random() < 0.3,
+    return dict(clear=(rnd.random() < 0.4) if rnd.random() < 0.8 else rnd.choice(RAW_BOOLS), shrink=rnd.random() < 0.3, g90e=rnd.random() < 0.3,
                 enter=rnd.choice([None, None, "M117 entering\nM106 S0 ; fan off\n"]),
                 exit=rnd.choice([None, None, "M117 leaving\n\n  M106 S255\n"]),
                 ext=dict(DEFAULT_EXT, **rnd.choice([{}, {"M900": "merge"}, {"M220": "first", "G4": "last"}])),
@@ -68,7 +68,11 @@ def gen_history(rnd, regs, settings, nblocks=None):
     for _ in range(nblocks if nblocks is not None else rnd.randint(3, 14)):
         k = rnd.random()
         if k < 0.2:
-            steps.append(["event", EV_START])
+            if rnd.random() < 0.25:
+                # a job printed from the printer's SD card: same events, other origin
+                steps.append(["event", EV_START, dict(name="part.gco", path="part.gco", origin="sdcard", size=4321, owner=None)])
+            else:
+                steps.append(["event", EV_START])
             active, homed = True, False
         elif k < 0.5:
             # a stretch of G-code / @-commands (maybe outside of a print)
@@ -91,7 +95,7 @@ def gen_history(rnd, regs, settings, nblocks=None):
         elif k < 0.6:
             steps.append(["event", rnd.choice(EV_END)])
             active = False
-            if settings.get("clear"):
+            if setting_bool(settings.get("clear")):
                 cur_regs = []
         elif k < 0.7:
             steps.append(["event", rnd.choice(EV_NEUTRAL)])
@@ -113,7 +117,10 @@ def gen_history(rnd, regs, settings, nblocks=None):
             steps.append(["api", "addExcludeRegion", region_payload(r)])
             cur_regs.append(r)
         else:
-            settings = dict(settings, clear=rnd.random() < 0.5)
+            settings = dict(settings, clear=(rnd.random() < 0.5) if rnd.random() < 0.7 else rnd.choice(RAW_BOOLS))
+            settings.pop("malformed", None)
+            if rnd.random() < 0.12:
+                settings["malformed"] = rnd.choice(["at-regex", "ext-key"])     # this save also carries a row the plugin cannot convert
             q = rnd.random()
             if q < 0.35:
                 # change the mode of a configured code / add or drop one
@@ -243,7 +250,7 @@ class C11(Monitor):
             p.api("addExcludeRegion", region_payload(r))
         p.pm.take()
         active = False
-        clear = bool(case["settings"].get("clear"))
+        clear = setting_bool(case["settings"].get("clear"))
         prints = 0
         clears = set()
         for i, st in enumerate(case["steps"]):
@@ -279,7 +286,10 @@ class C11(Monitor):
                 elif after_regions != before_regions:
                     v.append(dict(kind="unrelated-event-changed-regions", idx=i, cmd=repr(st), detail=repr(after_regions), mechanism=None))
             elif st[0] == "settings":
-                clear = bool(st[1].get("clear"))
+                clear = setting_bool(st[1].get("clear"))
+                stats["c11_settings_saves"] += 1
+                if st[1].get("malformed"):
+                    stats["c11_settings_saves_with_unconvertible_row"] += 1
             if p.unit.isActivePrintJob != active:
                 v.append(dict(kind="active-flag-differs", idx=i, cmd=repr(st), mechanism=None,
                               detail="plugin says active=%r, reference state machine says %r" % (p.unit.isActivePrintJob, active)))
@@ -338,7 +348,14 @@ class C10(Monitor):
             hist = extra + hist
         else:
             hist = hist + extra
-        q = program(rnd, [], settings, rnd.randint(5, 40))      # regions for Q are whatever P1 ends with (see check_case)
+        if rnd.random() < 0.3:
+            # commands with a sub-code during the earlier print (the parser instance is shared with the script splitter), and a
+            # settings save (unchanged or not) before the next print
+            for _ in range(rnd.randint(1, 3)):
+                hist.insert(rnd.randrange(1, len(hist) + 1), ["g", rnd.choice(["G92.1", "G38.2 Z0 F100", "M117.2 hi", "G5.1 X1"])])
+            if rnd.random() < 0.7:
+                last = [st[1] for st in hist if st[0] == "settings"]
+                hist.append(["settings", dict(last[-1] if last else settings)])
         return dict(settings=settings, regions=regs, history=hist, q_seed=rnd.randint(0, 10 ** 9))
 
     def check_case(self, case):
@@ -352,6 +369,9 @@ class C10(Monitor):
         settings = dict(case["settings"])
         try:
             for st in case["history"]:
+                if st[0] == "settings" and "malformed" in st[1]:
+                    # a save the plugin cannot convert leaves it half-updated; there is no fresh plugin to compare that with
+                    st = ["settings", dict((k, w) for k, w in st[1].items() if k != "malformed")]
                 d1.do(st)
                 if st[0] == "settings":
                     settings = dict(st[1])
